@@ -30,7 +30,7 @@ def run(cases, workers=16, timeout=3000):
     """cases: dicts with s (abstract script, incs as path records), files ([{path, s}]), base (dir list), events (list, may be empty).
     Returns (TlcResult, list of {out, trace, at}) in case order."""
     path = os.path.join(common.scratch(), "loadcases_%d.json" % len(os.listdir(common.scratch())))
-    payload = [dict(s=c["s"], files=c.get("files", []), base=c.get("base", []), events=c.get("events", [])) for c in cases]
+    payload = [dict(s=c["s"], files=c.get("files", []), base=c.get("base", []), rawbase=c.get("rawbase", c.get("base", [])), events=c.get("events", [])) for c in cases]
     with open(path, "w") as fh:
         json.dump(payload, fh)
     cfg = ("CONSTANT ClearTablesAtLoadStart = TRUE\nCONSTANT FS <- TraceFS\nINIT Init\nNEXT Next\nINVARIANT LoopVarScoped\nCONSTRAINT Emit\n")
